@@ -16,6 +16,7 @@ from .sink import (
   ClientMessageSink,
   ClientMessageSinkStack
 )
+from .timer_queue import GLOBAL_TIMER_QUEUE
 from .varz import (
   Rate,
   Source,
@@ -174,9 +175,33 @@ class MessageDispatcher(ClientMessageSink):
       # _DispatchMethod returns an AsyncResult, so we end up with an
       # AsyncResult<AsyncResult<TRet>>, Unwrap() removes one layer, yielding
       # an AsyncResult<TRet>
-      return self._open_ar.ContinueWith(
-          lambda ar: self._DispatchMethod(method, args, kwargs, timeout, start_time)
-      ).Unwrap()
+      if not timeout:
+        return self._open_ar.ContinueWith(
+            lambda ar: self._DispatchMethod(method, args, kwargs, timeout, start_time)
+        ).Unwrap()
+
+      # Open() may take longer than the call's timeout (or never complete), so
+      # the wait for it is bounded by the call's deadline as well.
+      ret = AsyncResult()
+      def on_timeout():
+        if not ret.ready():
+          ret.set_exception(TimeoutError())
+      cancel_timeout = GLOBAL_TIMER_QUEUE.Schedule(start_time + timeout, on_timeout)
+      def on_done(ar):
+        if not ret.ready():
+          if ar.successful():
+            ret.set(ar.value)
+          else:
+            ret.set_exception(ar.exception)
+      def on_open(_):
+        # From here on the timeout sink enforces the deadline.  A call that
+        # already timed out waiting for Open() is not dispatched at all.
+        cancel_timeout()
+        if not ret.ready():
+          self._DispatchMethod(
+              method, args, kwargs, timeout, start_time).rawlink(on_done)
+      self._open_ar.rawlink(on_open)
+      return ret
 
   @staticmethod
   def StaticDispatchMessage(sink, source, start_time, deadline, disp_msg):
